@@ -1,5 +1,6 @@
 import MuduoVerif.Proofs.PollerPerm
 import MuduoVerif.Proofs.PollerSkelTie
+import MuduoVerif.Proofs.PollerBound
 /-!
 # C09 — the loop calls exactly the ready, subscribed channels; same under epoll and poll
 
@@ -265,6 +266,105 @@ theorem idle_blocks_watch (be : Backend) (ins : List In) (fd : Int) (mask : Nat)
   obtain ⟨c, h1, h2, h3, h4⟩ := (refine_full_holds be ins fd mask).1 hw
   exact ⟨h4, c, h1, h2, h3⟩
 
+/-! ## every ready, subscribed channel is called within a bounded number of iterations -/
+
+/-- **all_ready_called_poll**: under `poll(2)` the whole array `pollfds_` is scanned, so after every history, however
+many descriptors are ready at once, *every* channel `c` that subscribes to `k` and whose descriptor is reported with
+bits that call for `k` (`disp k (lookupRev ready c)`) gets its `k` callback in this very iteration, with those bits
+and its interest.  Environment: `poll(2)` returns (at least) the number of entries it marked (`pollCount`).  The one
+thing that may legitimately withdraw the callback is an operation on `c` scripted inside an earlier callback of the
+same iteration (`dispatch_sound`); operations on other channels - incl. removals that move `c`'s slot - do not. -/
+theorem all_ready_called_poll (ins : List In) (ready : List (Nat × Nat)) (nret : Nat)
+    (henv : pollCount ready (reach .poll ins).pollfds ≤ nret)
+    (c : Nat) (k : Kind) (hh : ∀ h ∈ (reach .poll ins).hooks, h.c ≠ c)
+    (hsub : subscribed k ((reach .poll ins).chans c).events) (hrdy : disp k (lookupRev ready c)) :
+    ∃ l, (iter (reach .poll ins) ready nret).out = (reach .poll ins).out ++ l ∧
+      Ev.cb c k (lookupRev ready c) ((reach .poll ins).chans c).events ∈ l := by
+  have hg := pollGood_run ins
+  refine poll_calls hg ready nret henv hh ?_ hsub hrdy
+  cases ha : ((reach .poll ins).chans c).added with
+  | true => rfl
+  | false => exact absurd (hg.2.2.unreg c ha).2.1 (subscribed_ne_zero hsub)
+
+/-- **all_reported_called_epoll**: under epoll every channel the kernel *reports* is called in that iteration (same
+proviso about operations on `c` itself); how many of the ready descriptors one wait reports is bounded by the size of
+`events_` - see `evsize_growth` and `all_ready_called_epoll_bound` -/
+theorem all_reported_called_epoll (ins : List In) (henv : Along epEnvOk (init .epoll) ins)
+    (ready : List (Nat × Nat)) (nret : Nat) (hnow : epEnvOk (reach .epoll ins) (.iter ready nret))
+    (hnd : (ready.map (·.1)).Nodup) (c rev : Nat) (k : Kind) (hmem : (c, rev) ∈ ready)
+    (hh : ∀ h ∈ (reach .epoll ins).hooks, h.c ≠ c)
+    (hsub : subscribed k ((reach .epoll ins).chans c).events) (hrdy : disp k rev) :
+    ∃ l, (iter (reach .epoll ins) ready nret).out = (reach .epoll ins).out ++ l ∧
+      Ev.cb c k rev ((reach .epoll ins).chans c).events ∈ l :=
+  epoll_calls (epAlive_run ins henv) ready nret hnow hnd hmem hh hsub hrdy
+
+/-- **evsize_growth**: along any run under either back-end the size of `EPollPoller::events_` starts at
+`kInitEventListSize`, never shrinks, is changed by nothing but `EPollPoller::poll`, and one iteration resizes it exactly
+when the report filled it (`Gen.Poller.epArrayFull`, under `Gen.Poller.epHasEvents`; `ready`/`nret` well-formed) - to
+`Gen.Poller.epGrowTo`, which doubles it.  So on an epoll loop an iteration whose wait returns `evsize` events doubles
+the array and one that returns fewer leaves it alone. -/
+theorem evsize_growth (be : Backend) (ins : List In) :
+    kInitEventListSize ≤ (reach be ins).evsize ∧
+    (∀ more, (reach be ins).evsize ≤ (reach be (ins ++ more)).evsize) ∧
+    (∀ ready nret, (reach be ins).dead = false →
+      (iter (reach be ins) ready nret).evsize =
+        if (reach be ins).be = .epoll ∧ epHasEvents (nret : Int) ∧
+            ¬ (ready.length > (reach be ins).evsize ∨ nret ≠ ready.length) ∧ epArrayFull nret (reach be ins).evsize
+        then epGrowTo (reach be ins).evsize else (reach be ins).evsize) ∧
+    (∀ ready nret, (reach .epoll ins).dead = false → epEnvOk (reach .epoll ins) (.iter ready nret) →
+      (nret = (reach .epoll ins).evsize → (iter (reach .epoll ins) ready nret).evsize = 2 * (reach .epoll ins).evsize) ∧
+      (nret < (reach .epoll ins).evsize → (iter (reach .epoll ins) ready nret).evsize = (reach .epoll ins).evsize)) := by
+  have hinit : ∀ be ins, kInitEventListSize ≤ (reach be ins).evsize := fun be ins => by
+    have := run_evsize_le ins (init be); rw [init_evsize] at this; exact this
+  refine ⟨hinit be ins, fun more => ?_, fun ready nret hd => ?_, fun ready nret hd henv => ?_⟩
+  · have : reach be (ins ++ more) = run (reach be ins) more := by simp [reach, run, List.foldl_append]
+    rw [this]; exact run_evsize_le more _
+  · rw [iter_evsize, hd, pollerPoll_evsize]; simp
+  · have hbe : (reach .epoll ins).be = .epoll := (epGood_run ins).1
+    obtain ⟨h1, h2, _⟩ := henv hbe
+    have hpos : 0 < (reach .epoll ins).evsize :=
+      Nat.lt_of_lt_of_le (by decide : 0 < kInitEventListSize) (hinit .epoll ins)
+    rw [iter_evsize, hd, pollerPoll_evsize]
+    simp only [Bool.false_eq_true, if_false]
+    constructor
+    · intro hfull
+      rw [if_pos ⟨hbe, by unfold epHasEvents; omega, by omega, by unfold epArrayFull; exact hfull⟩]
+      unfold epGrowTo; omega
+    · intro hlt
+      rw [if_neg]
+      intro h
+      have := h.2.2.2
+      unfold epArrayFull at this
+      omega
+
+/-- **all_ready_called_epoll_bound**: an epoll loop after any history on a well-behaved kernel, no operation pending
+inside a callback; `rdy` are the descriptors (channel, revents) that are ready and stay ready over the next waits
+(level-triggered: what a wait did not report is still ready at the next one), all of them in the kernel's interest
+list.  The kernel may keep its ready list in any order from wait to wait (`order j`, a permutation of `rdy`; e.g.
+reported entries go to the tail); each wait (`epWait`) reports the first `min R evsize` entries.  Then after `n`
+consecutive waits the array holds `evsize₀ · 2ⁿ ≥ kInitEventListSize · 2ⁿ` entries unless it already exceeds `R`
+(every wait that could not report everything filled the array and doubled it), and therefore, once
+`kInitEventListSize · 2ⁿ ≥ R` - i.e. within `⌈log₂ (R / 16)⌉ + 1` iterations -, one iteration reports all `R` ready
+descriptors and calls every one of them that subscribes to what it is ready for. -/
+theorem all_ready_called_epoll_bound (ins : List In) (henv : Along epEnvOk (init .epoll) ins)
+    (hh : (reach .epoll ins).hooks = [])
+    (rdy : List (Nat × Nat)) (order : Nat → List (Nat × Nat)) (hord : ∀ j, (order j).Perm rdy)
+    (hnd : (rdy.map (·.1)).Nodup) (hk : ∀ p ∈ rdy, ((reach .epoll ins).kernel (fdOf p.1)).isSome) (n : Nat) :
+    kInitEventListSize ≤ (reach .epoll ins).evsize ∧
+    ((reach .epoll ins).evsize * 2 ^ n ≤ (epWaits order n (reach .epoll ins)).evsize ∨
+      rdy.length < (epWaits order n (reach .epoll ins)).evsize) ∧
+    (rdy.length ≤ kInitEventListSize * 2 ^ n →
+      ∀ c rev k, (c, rev) ∈ rdy → disp k rev → subscribed k ((reach .epoll ins).chans c).events →
+        ∃ l, (epWait order n (epWaits order n (reach .epoll ins))).out =
+            (epWaits order n (reach .epoll ins)).out ++ l ∧
+          Ev.cb c k rev ((reach .epoll ins).chans c).events ∈ l) := by
+  have hinit : kInitEventListSize ≤ (reach .epoll ins).evsize := (evsize_growth .epoll ins).1
+  have hpos : 0 < (reach .epoll ins).evsize := Nat.lt_of_lt_of_le (by decide : 0 < kInitEventListSize) hinit
+  have hg := epAlive_run ins henv
+  refine ⟨hinit, (epWaits_inv hg hh hpos order hord hk n).grow, fun hn c rev k hmem hrdy hsub => ?_⟩
+  exact epoll_bound_calls hg hh hpos order hord hnd hk n
+    (Nat.le_trans hn (Nat.mul_le_mul_right _ hinit)) hmem hrdy hsub
+
 /-! ## T1, statement order -/
 
 /-- T1, statement order: in every function of `EPollPoller.cc` (`poll`, `fillActiveChannels`, `updateChannel`,
@@ -324,5 +424,36 @@ example :
     (∀ be ∈ [Backend.epoll, .poll], watched (reach be [.op 2 .disableAll, .op 2 .enableR]) 2 3) ∧
     Along2 simEnvOk (init .poll) (init .epoll) [.op 2 .disableAll, .iter [] 0, .op 2 .remove, .op 2 .enableR,
       .iter [(2, 1)] 1] := by decide
+
+/-- 40 user channels (ids 2 … 41) register for reading … -/
+def burstHistory : List In := (List.range 40).map fun i => In.op (i + 2) .enableR
+/-- … and all 40 become readable and stay so -/
+def burstReady : List (Nat × Nat) := (List.range 40).map fun i => (i + 2, 1)
+/-- the kernel's ready list rotates: what was reported goes to the tail (16 were reported, then 32) -/
+def burstOrder (j : Nat) : List (Nat × Nat) := burstReady.rotateLeft ([0, 16, 8].getD j 0)
+
+/-- the hypotheses of `all_ready_called_epoll_bound` / `all_ready_called_poll` hold for this burst, and what happens:
+the array grows 16, 32, 64 and stays; the three consecutive iterations run 16, 32 and then all 40 read callbacks
+(`16 · 2² ≥ 40`: the third iteration); under poll the first iteration runs all 40 -/
+example :
+    Along epEnvOk (init .epoll) burstHistory ∧ (reach .epoll burstHistory).hooks = [] ∧
+    (burstReady.map (·.1)).Nodup ∧ (∀ p ∈ burstReady, ((reach .epoll burstHistory).kernel (fdOf p.1)).isSome) ∧
+    ((List.range 4).map fun n => (epWaits burstOrder n (reach .epoll burstHistory)).evsize) = [16, 32, 64, 64] ∧
+    ((List.range 3).map fun n =>
+      (cbOut (epWait burstOrder n (epWaits burstOrder n (reach .epoll burstHistory))).out).length -
+        (cbOut (epWaits burstOrder n (reach .epoll burstHistory)).out).length) = [16, 32, 40] ∧
+    pollCount burstReady (reach .poll burstHistory).pollfds = 40 ∧
+    (cbOut (iter (reach .poll burstHistory) burstReady 40).out).length = 40 := by
+  decide +kernel
+
+set_option maxRecDepth 8192 in
+/-- … and the theorem applied to it (any fixed order): the third wait calls every one of the 40 channels -/
+example (c : Nat) (hc : (c, 1) ∈ burstReady) :
+    ∃ l, (epWait (fun _ => burstReady) 2 (epWaits (fun _ => burstReady) 2 (reach .epoll burstHistory))).out =
+        (epWaits (fun _ => burstReady) 2 (reach .epoll burstHistory)).out ++ l ∧
+      Ev.cb c .read 1 ((reach .epoll burstHistory).chans c).events ∈ l := by
+  have hsub : ∀ p ∈ burstReady, subscribed .read ((reach .epoll burstHistory).chans p.1).events := by decide +kernel
+  exact (all_ready_called_epoll_bound burstHistory (by decide +kernel) (by decide +kernel) burstReady (fun _ => burstReady)
+    (fun _ => .refl _) (by decide +kernel) (by decide +kernel) 2).2.2 (by simp [burstReady, kInitEventListSize]) c 1 .read hc (by decide) (hsub _ hc)
 
 end MuduoVerif.C09
